@@ -1301,11 +1301,19 @@ var vtACSNames = map[byte]rune{
 func (t *tScreen) buildAcsMap() {
 	acsstr := t.ti.AltChars
 	t.acs = make(map[rune]string)
+	// The glyph strings are written as cell content, without going through
+	// TPuts, so the padding of smacs/rmacs has to come off here.
+	unpad := func(s string) string {
+		var b bytes.Buffer
+		(&terminfo.Terminfo{}).TPuts(&b, s)
+		return b.String()
+	}
+	enter, exit := unpad(t.ti.EnterAcs), unpad(t.ti.ExitAcs)
 	for len(acsstr) >= 2 {
 		srcv := acsstr[0]
-		dstv := string(acsstr[1])
+		dstv := acsstr[1:2] // the byte itself, not the code point it would be
 		if r, ok := vtACSNames[srcv]; ok {
-			t.acs[r] = t.ti.EnterAcs + dstv + t.ti.ExitAcs
+			t.acs[r] = enter + dstv + exit
 		}
 		acsstr = acsstr[2:]
 	}
